@@ -11,7 +11,7 @@ import sysconfig
 from abc import ABCMeta, abstractmethod
 from contextlib import contextmanager
 from types import CodeType
-from typing import Iterator, Optional
+from typing import Callable, Dict, Iterator, Optional, Tuple
 
 from monkeytype.db.base import CallTraceStore, CallTraceStoreLogger
 from monkeytype.db.sqlite import SQLiteStore
@@ -94,7 +94,33 @@ def _startswith(a: pathlib.Path, b: pathlib.Path) -> bool:
         return False
 
 
-@functools.lru_cache(maxsize=8192)
+def _cached_per_filename(
+    func: Callable[[CodeType], bool],
+) -> Callable[[CodeType], bool]:
+    """Cache a filter's answer per source file.
+
+    The cache cannot be keyed on the code object itself (as functools.lru_cache
+    would do): co_filename is not part of code equality, so identical functions
+    from two different files - a vendored copy of an installed module, say -
+    compare equal and would share one answer.
+    """
+    results: Dict[Tuple[str, Optional[str]], bool] = {}
+
+    @functools.wraps(func)
+    def wrapper(code: CodeType) -> bool:
+        # the answer also depends on the module allow-list in the environment
+        key = (code.co_filename, os.environ.get("MONKEYTYPE_TRACE_MODULES"))
+        try:
+            return results[key]
+        except KeyError:
+            result = results[key] = func(code)
+            return result
+
+    wrapper.cache_clear = results.clear  # type: ignore[attr-defined]
+    return wrapper
+
+
+@_cached_per_filename
 def default_code_filter(code: CodeType) -> bool:
     """A CodeFilter to exclude stdlib and site-packages."""
     # Filter code without a source file
